@@ -463,7 +463,7 @@ def family_id(sig):
 
 def run(ctx):
     ctx.level = "proof"
-    ctx.lean_stage([], ["Verif.Props.C06", "Verif.Props.TokenRules", "Verif.Props.ScanRules", "Verif.Props.ScanRules1b", "Verif.Props.ScanRules2", "Verif.Props.ScanRules2b", "Verif.Props.TokenRules2"])
+    ctx.lean_stage([], ["Verif.Props.C06", "Verif.Props.TokenRules", "Verif.Props.ScanRules", "Verif.Props.ScanRules1b", "Verif.Props.ScanRules2", "Verif.Props.ScanRules2b", "Verif.Props.TokenRules2", "Verif.Props.TokenRules2.Md023", "Verif.Props.TokenRules2.Md030", "Verif.Props.TokenRules2.Md037", "Verif.Props.TokenRules2.Md044", "Verif.Props.TokenRules2.Md046", "Verif.Props.TokenRules2.Interfere", "Verif.Props.TokenRules2.InterfereRows"])
     import blocks
     blocks.tokenrules2(ctx)    # MD023 MD030 MD037 MD044 MD046: mdX_scan_iff, mdX_faithful_eq_spec
     blocks.scanrules2(ctx)     # MD011 MD013 MD014 MD028 MD033 MD034 scan_iff (MD018 MD020 MD032: model + tie + excluded points)
